@@ -90,12 +90,12 @@ DET1_ACCEPTED = {
 }
 
 spec("C01", "Docstring round trip",
-     [L.rule_scan_end, L.rule_type_ladder, W.rule_rejoin_uniform, L.rule_quote_pair, TB.rule_table_style, N.rule_null2, H.rule_invented_default, H.rule_empty_hole, H.rule_prose_gate, scoped(FA.rule_falsy, "falsy_defaults", "defaults_utils.set_default_doc", "defaults_utils.extract_default", "emitter_utils.interpolate_defaults"), L.rule_quote_types, coord("rule_coord_docstring", "docstring_parsers.parse_docstring", "emit.docstring"),
+     [L.rule_scan_end, L.rule_type_ladder, W.rule_rejoin_uniform, W.rule_wrap_breaks, W.rule_wrap_cont, W.rule_wrap_not_type, W.rule_scan_after_rejoin, L.rule_quote_pair, TB.rule_table_style, TB.rule_table_announce, N.rule_null2, H.rule_invented_default, H.rule_empty_hole, H.rule_prose_gate, scoped(FA.rule_falsy, "falsy_defaults", "defaults_utils.set_default_doc", "defaults_utils.extract_default", "emitter_utils.interpolate_defaults"), L.rule_quote_types, coord("rule_coord_docstring", "docstring_parsers.parse_docstring", "emit.docstring"),
       det3("docstring", "emit.docstring", "docstring_parsers.parse_docstring"), pit("docstring", "emit.docstring", "docstring_parsers.parse_docstring")],
-     "Necessary conditions decided on the source: (SCAN-END) the reader's scan for the end of an announced value, followed character by character on sample texts (a number, a decimal, a word, a quoted string with a full stop in it, bracketed values, an expression - with and without prose behind them), hands the conversion ladder the value: not cut at a dot inside quotes or a decimal, not running on into the prose behind a bracketed value; (TYPE-LADDER) every class of default text (integers signed or not, floats in every notation, booleans, quoted and unquoted strings - also those that look like numbers -, expressions) comes out of the reader's conversion ladder with its own Python type and no exception escapes; (REJOIN-UNIFORM) when word-wrapped prose is read back, the lines of a description are re-joined the same way at every line boundary - no decision on what a line contains, no join without a blank - so the prose comes back word for word; (QUOTE-PAIR) what the writer does to a string default when it quotes it the reader's unquote undoes, quoting its own result changes nothing, and unquote leaves a text that is not a quoted pair alone - followed on representatives of the kinds of string a default can be (a word, inner double quote, apostrophe, inner blank, padded, blank, line break, digits); (INVENTED-DEFAULT) on the docstring reader's path a default is only ever taken from the text: every call of a function "
+     "Necessary conditions decided on the source: (WRAP-NOT-TYPE) no text built from an entry's declared type reaches a word-wrapper - a type contains blanks and is read back from one line; (SCAN-END) the reader's scan for the end of an announced value, followed character by character on sample texts (a number, a decimal, a word, a quoted string with a full stop in it, bracketed values, an expression - with and without prose behind them), hands the conversion ladder the value: not cut at a dot inside quotes or a decimal, not running on into the prose behind a bracketed value; (TYPE-LADDER) every class of default text (integers signed or not, floats in every notation, booleans, quoted and unquoted strings - also those that look like numbers -, expressions) comes out of the reader's conversion ladder with its own Python type and no exception escapes; (REJOIN-UNIFORM) when word-wrapped prose is read back, the lines of a description are re-joined the same way at every line boundary - no decision on what a line contains, no join without a blank - so the prose comes back word for word; (WRAP-BREAKS, WRAP-CONT, SCAN-AFTER-REJOIN - emit.docstring wraps by default, so the round trip of any description longer than a line rests on them) every wrapping call breaks lines at whitespace only, continuation lines of a wrapped description keep the indentation the reader needs, and the default reader sees a description only after its lines were re-joined; (QUOTE-PAIR) what the writer does to a string default when it quotes it the reader's unquote undoes, quoting its own result changes nothing, and unquote leaves a text that is not a quoted pair alone - followed on representatives of the kinds of string a default can be (a word, inner double quote, apostrophe, inner blank, padded, blank, line break, digits); (INVENTED-DEFAULT) on the docstring reader's path a default is only ever taken from the text: every call of a function "
      "that writes the IR key 'default' with something other than what the default reader extracted, when one of its flag parameters is true, passes that flag as a constant "
      "false; (EMPTY-HOLE) the explicit default '' is written as a value the reader recognises, never as the empty text; (PROSE-GATE) whether the default sentence is written does not hang on the parameter having prose: the function that writes the announcement does not leave in front of it because the key 'doc' is missing while a default may be there, and on the docstring writer's path no use of the text it returns stands under a test of the IR's own prose; (FALSY) in the default writer and reader no default value - nor a helper's result that can be that value handed back unchanged - is used as a truth test (None, '', 0 and False are different defaults); (QUOTE-TYPES) the quoting helper, applied to every default whose "
-     "declared type mentions str, raises for no kind of default value (str, int, float, bool, None); (TABLE-style) per docstring style, every section header / line marker the emitter writes contains a "
+     "declared type mentions str, raises for no kind of default value (str, int, float, bool, None); (TABLE-announce) the default sentence the writer appends contains an announcement the reader looks for, and the writer decides 'this prose already announces a default' by asking the reader or by searching for texts each of which contains a reader announcement - also when those texts are computed from the reader's table (`a.rstrip() in prose for a in TABLE`); (TABLE-style) per docstring style, every section header / line marker the emitter writes contains a "
      "detection token of that style, none of a style detected earlier, and is a header the style's scanner splits on; ARG/RETURN token tables are subsets of "
      "TOKENS. (NULL-2) the pending-parameter slot [None, {}] of the ReST parser cannot reach the name post-processing, which dereferences the name, without a "
      "test of its name element (the 'documents only a return value' crash). (COORD) the scanners and the writer never cut a docstring at a position that was measured on a stripped / case-folded / otherwise length-changed copy of it. (DET-3, scoped) no function on this property's code path writes state that outlives the call (module globals/objects, function or class attributes, mutated mutable defaults, memoised mutable results): the conversion is not history-dependent. (LATE-BIND / STALE-CAPTURE / SHARED-DEFAULT / STR-MEMBER, scoped) on this property's code path no closure created per iteration reads its loop variable late, no partial / lambda default captures a name that is rebound before the call, no mutable default is mutated, returned or stored, and no membership test is made against an identifier-like string (a tuple that lost its comma).",
@@ -113,9 +113,9 @@ spec("C02", "Config-class round trip",
      not_decided="preservation of values/types/prose; the documented zero-value normalisation; the parser's merge of docstring- and attribute-derived entries")
 
 spec("C03", "Function / method round trip",
-     [H.rule_ast_leak, H.rule_default_kind, W.rule_rejoin_uniform, L.rule_quote_pair, named(O.rule_order, "rule_order_function", only=("emit.function",)), A.rule_align_emit, A.rule_align_parse, TB.rule_table_kind, N.rule_null1, N.rule_null2,
+     [W.rule_rejoin_cover, H.rule_ast_leak, H.rule_default_kind, W.rule_rejoin_uniform, L.rule_quote_pair, named(O.rule_order, "rule_order_function", only=("emit.function",)), A.rule_align_emit, A.rule_align_parse, TB.rule_table_kind, N.rule_null1, N.rule_null2,
       scoped(FA.rule_falsy, "falsy_function", "emit.function", "parse.function"), named(FW.rule_fwd, "rule_fwd", accepted=FWD_ACCEPTED), O.rule_kwarg_last, O.rule_order_merge, det3("function", "emit.function", "parse.function"), pit("function", "emit.function", "parse.function")],
-     "Necessary conditions: (AST-LEAK) on every path through the reader's default post-processing on which a signature default can still be a syntax node (no condition has said it is a str / constant / None-like, no statement has converted it) the function does not return: the IR holds values and code-quoted text, never raw ast objects; (DEFAULT-KIND) an operation only a str has (a str method, len(), indexing) is applied to a read of the IR key 'default' only under evidence that this default is a str (isinstance, a package predicate that tests it, equality with a str constant): defaults are also ints, floats, booleans and None; (REJOIN-UNIFORM) when word-wrapped prose is read back, the lines of a description are re-joined the same way at every line boundary - no decision on what a line contains, no join without a blank - so the prose comes back word for word; (QUOTE-PAIR) what the writer does to a string default when it quotes it the reader's unquote undoes, quoting its own result changes nothing, and unquote leaves a text that is not a quoted pair alone - followed on representatives of the kinds of string a default can be (a word, inner double quote, apostrophe, inner blank, padded, blank, line break, digits); (ORDER) one argument per non-**kwargs parameter in order, named by the key, with the name-only **kwargs partition and its complement both "
+     "Necessary conditions: (REJOIN-COVER) the function that re-joins the wrapped lines of a description is applied to an entry under no test of the entry's default or type - an entry without a default is wrapped all the same; (AST-LEAK) on every path through the reader's default post-processing on which a signature default can still be a syntax node (no condition has said it is a str / constant / None-like, no statement has converted it) the function does not return: the IR holds values and code-quoted text, never raw ast objects; (DEFAULT-KIND) an operation only a str has (a str method, len(), indexing) is applied to a read of the IR key 'default' only under evidence that this default is a str (isinstance, a package predicate that tests it, equality with a str constant): defaults are also ints, floats, booleans and None; (REJOIN-UNIFORM) when word-wrapped prose is read back, the lines of a description are re-joined the same way at every line boundary - no decision on what a line contains, no join without a blank - so the prose comes back word for word; (QUOTE-PAIR) what the writer does to a string default when it quotes it the reader's unquote undoes, quoting its own result changes nothing, and unquote leaves a text that is not a quoted pair alone - followed on representatives of the kinds of string a default can be (a word, inner double quote, apostrophe, inner blank, padded, blank, line break, digits); (ORDER) one argument per non-**kwargs parameter in order, named by the key, with the name-only **kwargs partition and its complement both "
      "consumed; (ALIGN-emit) defaults/kw_defaults are built one per argument from the same sequence (symbolic length identities over all paths); (ALIGN-parse) "
      "signature defaults are padded to exactly the argument count and keep their positions; (TABLE-kind) self/cls/static and the **kwargs suffix agree between "
      "emitter and recognisers; (NULL-1/2) no definite None dereference on the return-only / prose-less return paths. (FWD) an option the caller was given (word_wrap, emit_default_doc, docstring_format, ...) is forwarded to every callee that has the same option with a default - directly, through a partial or a wrapper; the confirmed exceptions are listed with reasons (props.FWD_ACCEPTED) or lie on the live-object path. (DET-3, scoped) no function on this property's code path writes state that outlives the call (module globals/objects, function or class attributes, mutated mutable defaults, memoised mutable results): the conversion is not history-dependent. (LATE-BIND / STALE-CAPTURE / SHARED-DEFAULT / STR-MEMBER, scoped) on this property's code path no closure created per iteration reads its loop variable late, no partial / lambda default captures a name that is rebound before the call, no mutable default is mutated, returned or stored, and no membership test is made against an identifier-like string (a tuple that lost its comma). (KWARG-LAST, ORDER-merge) as under C07.",
@@ -135,9 +135,9 @@ spec("C04", "argparse round trip",
      not_decided="required/default/Optional interplay, choices quoting, numeric vs string defaults (value-level)")
 
 spec("C06", "Emitted code is valid Python",
-     [H.rule_default_kind, L.rule_quote_pair, L.rule_quote_types, TB.rule_table_argparse, A.rule_align_emit, O.rule_order, CT.rule_ctor, scoped(FA.rule_falsy, "falsy_emit", "emit.class_", "emit.function", "emit.argparse_function"),
+     [H.rule_default_kind, L.rule_quote_pair, L.rule_quote_types, TB.rule_table_argparse, TB.rule_argparse_verbatim, A.rule_align_emit, O.rule_order, CT.rule_ctor, scoped(FA.rule_falsy, "falsy_emit", "emit.class_", "emit.function", "emit.argparse_function"),
       det3("emit", "emit.class_", "emit.function", "emit.argparse_function", "emit.file"), pit("emit", "emit.class_", "emit.function", "emit.argparse_function", "emit.file"), F.rule_file5],
-     "Necessary conditions, for all inputs: (TABLE-argparse) what the argparse emitter builds is what a real ArgumentParser accepts and the recogniser reads back - in particular a '%' in help text is written doubled, because argparse %-formats every help string (else printing the help raises), and halved again by the parser; (DEFAULT-KIND) an operation only a str has (a str method, len(), indexing) is applied to a read of the IR key 'default' only under evidence that this default is a str (isinstance, a package predicate that tests it, equality with a str constant): defaults are also ints, floats, booleans and None; (QUOTE-PAIR) what the writer does to a string default when it quotes it the reader's unquote undoes, quoting its own result changes nothing, and unquote leaves a text that is not a quoted pair alone - followed on representatives of the kinds of string a default can be (a word, inner double quote, apostrophe, inner blank, padded, blank, line break, digits); (QUOTE-TYPES) the quoting helper, applied to every default whose declared type mentions str (Union[int, str] = 3), raises for no kind of default value (str, int, float, bool, None): its type dispatch is run abstractly per kind; (ALIGN-emit) every ast.arguments(...) the package builds satisfies Python's length invariants and aligns defaults with "
+     "Necessary conditions, for all inputs: (TABLE-argparse) what the argparse emitter builds is what a real ArgumentParser accepts and the recogniser reads back - in particular a '%' in help text is written doubled, because argparse %-formats every help string (else printing the help raises), and halved again by the parser; (ARGPARSE-VERBATIM) the text assigned to the parser's description, which argparse prints as it is, passes through no percent rewriting; (DEFAULT-KIND) an operation only a str has (a str method, len(), indexing) is applied to a read of the IR key 'default' only under evidence that this default is a str (isinstance, a package predicate that tests it, equality with a str constant): defaults are also ints, floats, booleans and None; (QUOTE-PAIR) what the writer does to a string default when it quotes it the reader's unquote undoes, quoting its own result changes nothing, and unquote leaves a text that is not a quoted pair alone - followed on representatives of the kinds of string a default can be (a word, inner double quote, apostrophe, inner blank, padded, blank, line break, digits); (QUOTE-TYPES) the quoting helper, applied to every default whose declared type mentions str (Union[int, str] = 3), raises for no kind of default value (str, int, float, bool, None): its type dispatch is run abstractly per kind; (ALIGN-emit) every ast.arguments(...) the package builds satisfies Python's length invariants and aligns defaults with "
      "arguments as symbolic identities; (ORDER) names/order/count of attributes, arguments and options are those of the IR by construction; (CTOR) every ast node "
      "construction supplies the mandatory _fields of the running interpreter. (DET-3, scoped) no function on this property's code path writes state that outlives the call (module globals/objects, function or class attributes, mutated mutable defaults, memoised mutable results): the conversion is not history-dependent. (LATE-BIND / STALE-CAPTURE / SHARED-DEFAULT / STR-MEMBER, scoped) on this property's code path no closure created per iteration reads its loop variable late, no partial / lambda default captures a name that is rebound before the call, no mutable default is mutated, returned or stored, and no membership test is made against an identifier-like string (a tuple that lost its comma). (FILE-5c) existing content is not read through a handle opened for appending.",
      floors={"ALIGN-emit": 2, "ORDER": 4, "CTOR": 1},
@@ -158,7 +158,7 @@ spec("C07", "Parsing faithful to Python's view",
      not_decided="that the order is the source order (documented-first is value-level), precedence of documented information, prose attribution, the inspect path")
 
 spec("C08", "Fixed point after one pass",
-     [L.rule_scan_end, H.rule_default_kind, L.rule_quote_pair, TB.rule_table_announce, H.rule_empty_hole, scoped(FA.rule_falsy, "falsy_defaults", "defaults_utils.set_default_doc", "defaults_utils.extract_default", "emitter_utils.interpolate_defaults"),
+     [W.rule_rejoin_cover, L.rule_scan_end, H.rule_default_kind, L.rule_quote_pair, TB.rule_table_announce, H.rule_empty_hole, scoped(FA.rule_falsy, "falsy_defaults", "defaults_utils.set_default_doc", "defaults_utils.extract_default", "emitter_utils.interpolate_defaults"),
       coord("rule_coord_defaults", "defaults_utils.extract_default", "defaults_utils.set_default_doc"), named(FW.rule_fwd, "rule_fwd", accepted=FWD_ACCEPTED), O.rule_order_merge, det3("all", "emit.docstring", "emit.class_", "emit.function", "emit.argparse_function", "parse.docstring", "parse.class_", "parse.function", "parse.argparse_ast"), pit("all", "emit.docstring", "emit.class_", "emit.function", "emit.argparse_function", "parse.docstring", "parse.class_", "parse.function", "parse.argparse_ast"),
       C.rule_call_dispatch],
      "Necessary condition: (SCAN-END) the reader's scan for the end of an announced value, followed character by character on sample texts (a number, a decimal, a word, a quoted string with a full stop in it, bracketed values, an expression - with and without prose behind them), hands the conversion ladder the value: not cut at a dot inside quotes or a decimal, not running on into the prose behind a bracketed value; (DEFAULT-KIND) an operation only a str has (a str method, len(), indexing) is applied to a read of the IR key 'default' only under evidence that this default is a str (isinstance, a package predicate that tests it, equality with a str constant): defaults are also ints, floats, booleans and None; (QUOTE-PAIR) what the writer does to a string default when it quotes it the reader's unquote undoes, quoting its own result changes nothing, and unquote leaves a text that is not a quoted pair alone - followed on representatives of the kinds of string a default can be (a word, inner double quote, apostrophe, inner blank, padded, blank, line break, digits); (TABLE-announce b) each writer of the default sentence recognises its own sentence as 'already present' - either by calling the reader "
@@ -169,9 +169,9 @@ spec("C08", "Fixed point after one pass",
      not_decided="byte identity of the 2nd and 3rd emission in general (quote guards, indentation, wrapping are value-level)")
 
 spec("C09", "sync makes targets agree",
-     [C.rule_call_direct, C.rule_call_dispatch, C2.rule_cli2, V.rule_visit1, F.rule_file5, F.rule_file2b, F.rule_file2c, F.rule_file2d, V.rule_visit4, M.rule_modf2_conform, det3("sync", "conformance.ground_truth"), pit("sync", "conformance.ground_truth")],
-     "Necessary conditions: (CALL) every call through the sync dispatch table binds to its callee's signature for every table row and branch (create / append / replace), "
-     "on top of 290+ directly resolved calls; (CLI-2) no accepted combination of the three kinds dereferences an option that was not given (192 abstract states); (VISIT-1) "
+     [C.rule_call_direct, C.rule_call_dispatch, C2.rule_cli2, V.rule_visit1, F.rule_target_cover, F.rule_file5, F.rule_file2b, F.rule_file2c, F.rule_file2d, V.rule_visit4, M.rule_modf2_conform, det3("sync", "conformance.ground_truth"), pit("sync", "conformance.ground_truth")],
+     "Necessary conditions: (REJOIN-COVER) the function that re-joins the wrapped lines of a description is applied to an entry under no test of the entry's default or type - an entry without a default is wrapped all the same; (CALL) every call through the sync dispatch table binds to its callee's signature for every table row and branch (create / append / replace), "
+     "on top of 290+ directly resolved calls; (TARGET-COVER) the per-file worker is mapped over the whole list of files the caller gave for a kind - not a slice, an index, a filtered or shortened copy - and stands under no condition on the file other than the comparison with the truth file; (CLI-2) no accepted combination of the three kinds dereferences an option that was not given (192 abstract states); (VISIT-1) "
      "every visit_<T> override of the replacer replaces under the location predicate or delegates; (FILE-5) an appended definition starts on a new line; (FILE-2c) an "
      "existing, found definition is left unwritten only when its tree equals the replacement; (FILE-2b incl. ZIP-EQ) an existing file is rewritten only under an AST inequality test whose element-wise comparison also compares lengths; (MOD-F2) each target receives a freshly built replacement node. (DET-3, scoped) no function on this property's code path writes state that outlives the call (module globals/objects, function or class attributes, mutated mutable defaults, memoised mutable results): the conversion is not history-dependent. (LATE-BIND / STALE-CAPTURE / SHARED-DEFAULT / STR-MEMBER, scoped) on this property's code path no closure created per iteration reads its loop variable late, no partial / lambda default captures a name that is rebound before the call, no mutable default is mutated, returned or stored, and no membership test is made against an identifier-like string (a tuple that lost its comma). (FILE-2d) the existence test that decides between creating and editing a target looks at the same canonical form of the path that is written; (VISIT-4) locations are built inductively (the three recorded findings also fail C09).",
      floors={"CALL": 8, "CLI-2": 1, "VISIT-1": 2, "FILE-5": 1, "FILE-2c": 1},
@@ -188,8 +188,8 @@ spec("C10", "sync idempotent / truth untouched / truthful report",
      not_decided="byte identity of a second run (needs emit.parse to be a fixed point: value-level); growth by repeated append when the lookup cannot find what was appended")
 
 spec("C11", "sync preserves the rest",
-     [named(M.rule_modf, "rule_modf_sync", workers=("conformance._conform_filename",)), F.rule_file5, F.rule_file2d, F.rule_file2b, F.rule_file3, V.rule_visit2, V.rule_visit6, V.rule_visit4, V.rule_visit4b, det3("sync", "conformance.ground_truth"), pit("sync", "conformance.ground_truth")],
-     "Necessary conditions: (MOD-F) between reading a target module and writing it back the only field-visible writes on the tree are the replacer's or identity-preserving "
+     [TB.rule_receiver_sites, named(M.rule_modf, "rule_modf_sync", workers=("conformance._conform_filename",)), F.rule_file5, F.rule_file2d, F.rule_file2b, F.rule_file3, V.rule_visit2, V.rule_visit6, V.rule_visit4, V.rule_visit4b, det3("sync", "conformance.ground_truth"), pit("sync", "conformance.ground_truth")],
+     "Necessary conditions: (RECEIVER-SITES) every test in the location machinery that names a receiver (`args[0].arg in (...)`, `get_function_type(f) == ...`) names all the receivers get_function_type recognises - 'self' and 'cls' - so the arguments of class methods are numbered like those of instance methods; (MOD-F) between reading a target module and writing it back the only field-visible writes on the tree are the replacer's or identity-preserving "
      "re-listings, the reader's docstring re-indent being disabled at the call site; (FILE-5) appended text starts on a new line so the file still parses; (VISIT-2) at most "
      "one node is replaced; (VISIT-6) locations are compared by exact equality; (VISIT-4) locations are built inductively, so only the addressed node can match. (DET-3, scoped) no function on this property's code path writes state that outlives the call (module globals/objects, function or class attributes, mutated mutable defaults, memoised mutable results): the conversion is not history-dependent. (LATE-BIND / STALE-CAPTURE / SHARED-DEFAULT / STR-MEMBER, scoped) on this property's code path no closure created per iteration reads its loop variable late, no partial / lambda default captures a name that is rebound before the call, no mutable default is mutated, returned or stored, and no membership test is made against an identifier-like string (a tuple that lost its comma). (FILE-2d) as under C09; (FILE-2b) the whole-module rewrite truncates (no update mode) and is guarded by an AST inequality; (FILE-3b) a rendering / formatting error aborts the write.",
      floors={"MOD-F": 3, "FILE-5": 1, "VISIT-2": 1, "VISIT-6": 3, "VISIT-4": 3},
@@ -216,8 +216,8 @@ spec("C13", "Non-interference through shared inputs",
      not_decided="value-level effects of reads; helpers reached only through unresolved dynamic calls")
 
 spec("C14", "sync_properties changes exactly the addressed property",
-     [F.rule_file1_input, F.rule_file7, O.rule_pairs_all, named(M.rule_modf, "rule_modf_sync_properties", workers=("sync_properties.sync_properties",)), M.rule_modf2, CLI.rule_cli1, A.rule_align_idx, det3("sync_properties", "sync_properties.sync_properties"), pit("sync_properties", "sync_properties.sync_properties")],
-     "Necessary conditions: (FILE-1) no value derived from the input filename reaches the path of a write sink; (FILE-7) the single write of the output file comes after all "
+     [TB.rule_receiver_sites, F.rule_file1_input, F.rule_file7, O.rule_pairs_all, named(M.rule_modf, "rule_modf_sync_properties", workers=("sync_properties.sync_properties",)), M.rule_modf2, CLI.rule_cli1, A.rule_align_idx, det3("sync_properties", "sync_properties.sync_properties"), pit("sync_properties", "sync_properties.sync_properties")],
+     "Necessary conditions: (RECEIVER-SITES) every test in the location machinery that names a receiver (`args[0].arg in (...)`, `get_function_type(f) == ...`) names all the receivers get_function_type recognises - 'self' and 'cls' - so the arguments of class methods are numbered like those of instance methods; (FILE-1) no value derived from the input filename reaches the path of a write sink; (FILE-7) the single write of the output file comes after all "
      "pairs and every returning path after the transformer ran tests `.replaced` with a raising failing branch; (MOD-F) only the addressed node is field-mutated on the "
      "read->write path; (MOD-F2) the node taken from the input tree is copied before it is mutated/grafted; (CLI-1) CLI dests bind to the worker's signature. (ALIGN-idx) an index used on `<fn>.args.defaults` comes from the positional argument list only (the `_idx` numbering restarts for keyword-only arguments), so replacing one argument cannot overwrite the default of another. (DET-3, scoped) no function on this property's code path writes state that outlives the call (module globals/objects, function or class attributes, mutated mutable defaults, memoised mutable results): the conversion is not history-dependent. (LATE-BIND / STALE-CAPTURE / SHARED-DEFAULT / STR-MEMBER, scoped) on this property's code path no closure created per iteration reads its loop variable late, no partial / lambda default captures a name that is rebound before the call, no mutable default is mutated, returned or stored, and no membership test is made against an identifier-like string (a tuple that lost its comma).",
      floors={"FILE-1": 2, "FILE-7": 2, "MOD-F": 3, "MOD-F2": 1, "CLI-1": 2},
@@ -225,8 +225,8 @@ spec("C14", "sync_properties changes exactly the addressed property",
      not_decided="that the addressed node is the right one (C15), eval mode (executes the input module)")
 
 spec("C15", "Dotted locations",
-     [named(V.rule_visit3, "rule_visit3", location_inductive=V.location_is_inductive), V.rule_visit4, V.rule_visit4b, V.rule_visit2, V.rule_visit6, A.rule_align_idx, pit("locations", "ast_utils.find_in_ast", "ast_utils.annotate_ancestry")],
-     "Necessary conditions: (VISIT-3) typestate over the CFG of find_in_ast: a path segment is consumed only after the previous one was matched and a node is answered only "
+     [TB.rule_receiver_sites, named(V.rule_visit3, "rule_visit3", location_inductive=V.location_is_inductive), V.rule_visit4, V.rule_visit4b, V.rule_visit2, V.rule_visit6, A.rule_align_idx, pit("locations", "ast_utils.find_in_ast", "ast_utils.annotate_ancestry")],
+     "Necessary conditions: (RECEIVER-SITES) every test in the location machinery that names a receiver (`args[0].arg in (...)`, `get_function_type(f) == ...`) names all the receivers get_function_type recognises - 'self' and 'cls' - so the arguments of class methods are numbered like those of instance methods; (VISIT-3) typestate over the CFG of find_in_ast: a path segment is consumed only after the previous one was matched and a node is answered only "
      "in state MATCHED; (VISIT-3b) answers decided by `_location == search` alone are only accepted while the annotation is inductive; (VISIT-4) every `_location` is built "
      "from the parent's location; (VISIT-2) replace at most once; (VISIT-6) locations are compared by exact equality only. (ALIGN-idx) an index used on `<fn>.args.defaults` comes from the positional argument list only (the `_idx` numbering restarts for keyword-only arguments), so replacing one argument cannot overwrite the default of another. (LATE-BIND / STALE-CAPTURE / SHARED-DEFAULT / STR-MEMBER, scoped) on this property's code path no closure created per iteration reads its loop variable late, no partial / lambda default captures a name that is rebound before the call, no mutable default is mutated, returned or stored, and no membership test is made against an identifier-like string (a tuple that lost its comma).",
      floors={"VISIT-3": 4, "VISIT-4": 4, "VISIT-2": 1, "VISIT-6": 3},
@@ -260,8 +260,8 @@ spec("C17", "Defaults through prose",
      not_decided="the arithmetic of the removal offsets themselves, values and scan inputs outside the tabulated classes and samples (character-level)")
 
 spec("C18", "Wrapping / line length transparent",
-     [T.rule_typeflow, T.rule_wrap_last, W.rule_wrap_breaks, W.rule_wrap_cont, W.rule_rejoin_uniform, W.rule_scan_after_rejoin, coord("rule_coord_defaults", "defaults_utils.extract_default", "defaults_utils.set_default_doc"), det3("emit", "emit.docstring", "emit.class_", "emit.function", "emit.argparse_function"), pit("emit", "emit.docstring", "emit.class_", "emit.function", "emit.argparse_function")],
-     "Necessary conditions: (TYPEFLOW) the configured width read from the environment passes int()/float() before every numeric sink (width= of textwrap, comparison with "
+     [T.rule_typeflow, T.rule_wrap_last, W.rule_wrap_breaks, W.rule_wrap_cont, W.rule_rejoin_uniform, W.rule_rejoin_cover, W.rule_wrap_not_type, W.rule_scan_after_rejoin, coord("rule_coord_defaults", "defaults_utils.extract_default", "defaults_utils.set_default_doc"), det3("emit", "emit.docstring", "emit.class_", "emit.function", "emit.argparse_function"), pit("emit", "emit.docstring", "emit.class_", "emit.function", "emit.argparse_function")],
+     "Necessary conditions: (WRAP-NOT-TYPE) no text built from an entry's declared type reaches a word-wrapper - a type contains blanks and is read back from one line; (REJOIN-COVER) the function that re-joins the wrapped lines of a description is applied to an entry under no test of the entry's default or type - an entry without a default is wrapped all the same; (TYPEFLOW) the configured width read from the environment passes int()/float() before every numeric sink (width= of textwrap, comparison with "
      "len()); (WRAP-LAST) no reader of prose (default-sentence scanner) is applied to an already word-wrapped string; (WRAP-BREAKS) every wrapping call breaks lines at "
      "whitespace only (break_long_words=False, break_on_hyphens=False), because the reader re-joins the lines of an entry with a blank; (WRAP-CONT) in the functions that "
      "write one documented entry the wrapped text reaches the output through an indenter (or subsequent_indent=): continuation lines at the entry's own column are read as "
